@@ -16,6 +16,12 @@ CHECKS = {
  "C02": ("zcheck", "stateless model checking of the WriteConnection (complete sweep of all message-length pairs 1..700^2 x 4 operation forms; DFS over all operation histories up to 4/5 operations with lengths placed around the current free space)",
          "Every execution is a complete operation history on a fresh Connection whose transport logs each write with its boundaries; the oracle is a Vec<u8> of pending bytes. All length pairs meet every free-space value 0..=600; histories include unserializable messages at every position.",
          "Trusted: serde_json::to_vec as the JSON document of a message; the scripted WriteHalf accepts each write whole. Bounded: histories of <=4 (quick) / <=5 (thorough) operations, lengths from a boundary alphabet relative to free space, message sizes up to ~1.3 KB.", "4 C02"),
+ "C06": ("zcheck", "stateless model checking of Chain/ReplyStream (DFS by re-execution over all chains x reply scripts x trailing frame x arrival chunkings, deviation-bounded mid-frame cuts and spurious Pending)",
+         "Every execution builds a real chain on a real Connection, sends it, and drives the returned stream poll by poll while the reply bytes arrive in driver-chosen chunks; the oracle is the owed-replies model written from the statement.",
+         "Trusted: the reply scripts conform to the protocol. Bounded: chains of <=4 (quick) / <=6 (thorough) calls, <=2 continuing replies per `more` call, every subset of inter-frame cuts for <=3/4 calls, <=1/2 deviations otherwise.", "4 C06"),
+ "C11": ("zcheck", "stateless model checking of ReplyStream with every yielded item held (DFS over chains x reply scripts x payload sizes x arrival chunkings); damage decided from the transport's read log, an allocator release log and a content comparison",
+         "Same executions as C06 with reply sizes that do and do not force buffer growth; after every later item each held &str is checked: memory released since? written by a later transport read? content unchanged? Two genuine defects of the pinned tree are listed as known findings (call site ReplyStream, separate reads); any damage in another situation is reported.",
+         "Trusted: the harness allocator moves a block on every growth (adversarial but legal). Bounded: chains <=3/4 calls, sizes {20,300} / {20,200,300,600}.", "4 C11"),
 }
 
 NOT_YET = {
